@@ -1,1 +1,325 @@
-//! placeholder
+//! R-ARITH for truncation and rounding: per-unit boundary predicates written from the property
+//! statements (C10/C11), independent of the library's tables.
+use crate::cal::{cal, days_from_civil, iso_year_start, weekday_mon0, weekday_sun0};
+use crate::core::{DAY_US, MAX_DAY, MIN_DAY};
+use sqldatetime::{Date, Error, OracleDate, Round, Timestamp, Trunc};
+
+#[derive(Clone, Copy, Debug, PartialEq, Eq, Hash)]
+pub enum U {
+    Century,
+    Year,
+    IsoYear,
+    Quarter,
+    Month,
+    Week,
+    IsoWeek,
+    MonthWeek,
+    Day,
+    SunWeek,
+    Hour,
+    Minute,
+}
+pub const UNITS: [U; 12] = [U::Century, U::Year, U::IsoYear, U::Quarter, U::Month, U::Week, U::IsoWeek, U::MonthWeek, U::Day, U::SunWeek, U::Hour, U::Minute];
+impl U {
+    pub fn name(self) -> &'static str {
+        match self {
+            U::Century => "century",
+            U::Year => "year",
+            U::IsoYear => "iso_year",
+            U::Quarter => "quarter",
+            U::Month => "month",
+            U::Week => "week",
+            U::IsoWeek => "iso_week",
+            U::MonthWeek => "month_start_week",
+            U::Day => "day",
+            U::SunWeek => "sunday_start_week",
+            U::Hour => "hour",
+            U::Minute => "minute",
+        }
+    }
+    pub fn from_name(s: &str) -> Option<U> {
+        UNITS.iter().copied().find(|u| u.name() == s)
+    }
+    pub fn idx(self) -> usize {
+        UNITS.iter().position(|u| *u == self).unwrap()
+    }
+    pub fn sub_day(self) -> bool {
+        matches!(self, U::Hour | U::Minute)
+    }
+}
+
+const H: i64 = 3_600_000_000;
+const MI: i64 = 60_000_000;
+
+/// the greatest unit boundary not after (day n, time-of-day tod), in microseconds since the epoch
+/// (may lie before 0001-01-01; the caller decides what that means)
+pub fn trunc_model(u: U, n: i64, tod: i64) -> i128 {
+    let day = trunc_day_model(u, n);
+    let t = match u {
+        U::Hour => tod - tod % H,
+        U::Minute => tod - tod % MI,
+        _ => 0,
+    };
+    day as i128 * DAY_US as i128 + t as i128
+}
+
+/// day number of the boundary (for Hour/Minute: the day itself)
+pub fn trunc_day_model(u: U, n: i64) -> i64 {
+    let (y, m, d) = cal().of(n as i32);
+    let (y, m, d) = (y as i64, m as i64, d as i64);
+    match u {
+        U::Century => days_from_civil((y - 1) / 100 * 100 + 1, 1, 1),
+        U::Year => days_from_civil(y, 1, 1),
+        U::IsoYear => {
+            let mut best = iso_year_start(y - 1);
+            for yy in [y, y + 1] {
+                let s = iso_year_start(yy);
+                if s <= n {
+                    best = s;
+                }
+            }
+            best
+        }
+        U::Quarter => days_from_civil(y, (m - 1) / 3 * 3 + 1, 1),
+        U::Month => n - (d - 1),
+        U::Week => {
+            let doy = n - days_from_civil(y, 1, 1); // 0-based
+            n - doy % 7
+        }
+        U::IsoWeek => n - weekday_mon0(n) as i64,
+        U::MonthWeek => n - (d - 1) % 7,
+        U::Day | U::Hour | U::Minute => n,
+        U::SunWeek => n - weekday_sun0(n) as i64,
+    }
+}
+
+/// the first boundary strictly after the boundary `b` (a day number that is itself a boundary)
+pub fn next_day_boundary(u: U, b: i64) -> i64 {
+    let (y, m, _) = crate::cal::civil_from_days(b);
+    let m = m as i64;
+    match u {
+        U::Century => days_from_civil(y + 100, 1, 1),
+        U::Year => days_from_civil(y + 1, 1, 1),
+        U::IsoYear => {
+            // b is the start of some ISO year Y in {y, y+1}
+            let mut nx = i64::MAX;
+            for yy in [y, y + 1, y + 2] {
+                let s = iso_year_start(yy);
+                if s > b && s < nx {
+                    nx = s;
+                }
+            }
+            nx
+        }
+        U::Quarter => {
+            if m + 3 > 12 {
+                days_from_civil(y + 1, 1, 1)
+            } else {
+                days_from_civil(y, m + 3, 1)
+            }
+        }
+        U::Month => {
+            if m == 12 {
+                days_from_civil(y + 1, 1, 1)
+            } else {
+                days_from_civil(y, m + 1, 1)
+            }
+        }
+        U::Week => (b + 7).min(days_from_civil(y + 1, 1, 1)),
+        U::IsoWeek | U::SunWeek => b + 7,
+        U::MonthWeek => (b + 7).min(if m == 12 { days_from_civil(y + 1, 1, 1) } else { days_from_civil(y, m + 1, 1) }),
+        U::Day | U::Hour | U::Minute => b + 1,
+    }
+}
+
+#[derive(Clone, Copy, Debug, PartialEq, Eq)]
+pub enum Want {
+    /// exactly this boundary (microseconds); out of the type's range => an error is required
+    Exactly(i128),
+    /// the statement gives no midpoint here (shortened last week): either neighbour is acceptable
+    Either(i128, i128),
+}
+
+#[derive(Clone, Copy, Debug, PartialEq, Eq, Hash)]
+pub enum TyK {
+    Date,
+    Ts,
+    Ora,
+}
+
+/// expected rounding result of (day n, tod) per the documented midpoints.
+pub fn round_model(u: U, ty: TyK, n: i64, tod: i64) -> Want {
+    let (y, m, d) = cal().of(n as i32);
+    let (y, m, d) = (y as i64, m as i64, d as i64);
+    let x = n as i128 * DAY_US as i128 + tod as i128;
+    let lo = trunc_model(u, n, tod);
+    if x == lo {
+        return Want::Exactly(lo); // a value on a boundary is returned unchanged
+    }
+    let tday = trunc_day_model(u, n);
+    let hi: i128 = match u {
+        U::Hour => lo + H as i128,
+        U::Minute => lo + MI as i128,
+        _ => next_day_boundary(u, tday) as i128 * DAY_US as i128,
+    };
+    let up = match u {
+        U::Century => {
+            let yoc = (y - 1) % 100 + 1; // 1..=100
+            yoc >= 51
+        }
+        U::Year => m >= 7,
+        U::IsoYear => {
+            // documented calendar rule: July onward goes to the ISO year that follows the calendar year
+            return if m >= 7 { Want::Exactly(iso_year_start(y + 1) as i128 * DAY_US as i128) } else { Want::Exactly(lo) };
+        }
+        U::Quarter => {
+            let pos = (m - 1) % 3; // 0,1,2
+            pos == 2 || (pos == 1 && d >= 16)
+        }
+        U::Month => d >= 16,
+        U::Week | U::IsoWeek | U::MonthWeek | U::SunWeek => {
+            let full = hi - lo == 7 * DAY_US as i128;
+            if !full {
+                return Want::Either(lo, hi);
+            }
+            match ty {
+                TyK::Date => n - tday >= 4,                                   // the fifth day of the week onward
+                _ => 2 * (x - lo) >= 7 * DAY_US as i128,                      // noon of the fourth day onward
+            }
+        }
+        U::Day => tod >= 12 * H,
+        U::Hour => tod % H >= 30 * MI,
+        U::Minute => tod % MI >= 30_000_000,
+    };
+    Want::Exactly(if up { hi } else { lo })
+}
+
+// ---- the library side, by unit index
+pub fn lib_trunc_date(u: U, d: Date) -> Result<Date, Error> {
+    match u {
+        U::Century => d.trunc_century(),
+        U::Year => d.trunc_year(),
+        U::IsoYear => d.trunc_iso_year(),
+        U::Quarter => d.trunc_quarter(),
+        U::Month => d.trunc_month(),
+        U::Week => d.trunc_week(),
+        U::IsoWeek => d.trunc_iso_week(),
+        U::MonthWeek => d.trunc_month_start_week(),
+        U::Day => d.trunc_day(),
+        U::SunWeek => d.trunc_sunday_start_week(),
+        U::Hour => d.trunc_hour(),
+        U::Minute => d.trunc_minute(),
+    }
+}
+pub fn lib_round_date(u: U, d: Date) -> Result<Date, Error> {
+    match u {
+        U::Century => d.round_century(),
+        U::Year => d.round_year(),
+        U::IsoYear => d.round_iso_year(),
+        U::Quarter => d.round_quarter(),
+        U::Month => d.round_month(),
+        U::Week => d.round_week(),
+        U::IsoWeek => d.round_iso_week(),
+        U::MonthWeek => d.round_month_start_week(),
+        U::Day => d.round_day(),
+        U::SunWeek => d.round_sunday_start_week(),
+        U::Hour => d.round_hour(),
+        U::Minute => d.round_minute(),
+    }
+}
+pub fn lib_trunc_ts(u: U, d: Timestamp) -> Result<Timestamp, Error> {
+    match u {
+        U::Century => d.trunc_century(),
+        U::Year => d.trunc_year(),
+        U::IsoYear => d.trunc_iso_year(),
+        U::Quarter => d.trunc_quarter(),
+        U::Month => d.trunc_month(),
+        U::Week => d.trunc_week(),
+        U::IsoWeek => d.trunc_iso_week(),
+        U::MonthWeek => d.trunc_month_start_week(),
+        U::Day => d.trunc_day(),
+        U::SunWeek => d.trunc_sunday_start_week(),
+        U::Hour => d.trunc_hour(),
+        U::Minute => d.trunc_minute(),
+    }
+}
+pub fn lib_round_ts(u: U, d: Timestamp) -> Result<Timestamp, Error> {
+    match u {
+        U::Century => d.round_century(),
+        U::Year => d.round_year(),
+        U::IsoYear => d.round_iso_year(),
+        U::Quarter => d.round_quarter(),
+        U::Month => d.round_month(),
+        U::Week => d.round_week(),
+        U::IsoWeek => d.round_iso_week(),
+        U::MonthWeek => d.round_month_start_week(),
+        U::Day => d.round_day(),
+        U::SunWeek => d.round_sunday_start_week(),
+        U::Hour => d.round_hour(),
+        U::Minute => d.round_minute(),
+    }
+}
+pub fn lib_trunc_ora(u: U, d: OracleDate) -> Result<OracleDate, Error> {
+    match u {
+        U::Century => d.trunc_century(),
+        U::Year => d.trunc_year(),
+        U::IsoYear => d.trunc_iso_year(),
+        U::Quarter => d.trunc_quarter(),
+        U::Month => d.trunc_month(),
+        U::Week => d.trunc_week(),
+        U::IsoWeek => d.trunc_iso_week(),
+        U::MonthWeek => d.trunc_month_start_week(),
+        U::Day => d.trunc_day(),
+        U::SunWeek => d.trunc_sunday_start_week(),
+        U::Hour => d.trunc_hour(),
+        U::Minute => d.trunc_minute(),
+    }
+}
+pub fn lib_round_ora(u: U, d: OracleDate) -> Result<OracleDate, Error> {
+    match u {
+        U::Century => d.round_century(),
+        U::Year => d.round_year(),
+        U::IsoYear => d.round_iso_year(),
+        U::Quarter => d.round_quarter(),
+        U::Month => d.round_month(),
+        U::Week => d.round_week(),
+        U::IsoWeek => d.round_iso_week(),
+        U::MonthWeek => d.round_month_start_week(),
+        U::Day => d.round_day(),
+        U::SunWeek => d.round_sunday_start_week(),
+        U::Hour => d.round_hour(),
+        U::Minute => d.round_minute(),
+    }
+}
+
+/// applies trunc (round = false) or round through the requested type; the input must be valid for the type.
+/// Returns the result as microseconds.
+pub fn lib_apply(round: bool, u: U, ty: TyK, n: i64, tod: i64) -> Result<i64, Error> {
+    match ty {
+        TyK::Date => {
+            let d = Date::try_from_days(n as i32)?;
+            let r = if round { lib_round_date(u, d) } else { lib_trunc_date(u, d) };
+            r.map(|v| v.days() as i64 * DAY_US)
+        }
+        TyK::Ts => {
+            let t = Timestamp::try_from_usecs(n * DAY_US + tod)?;
+            let r = if round { lib_round_ts(u, t) } else { lib_trunc_ts(u, t) };
+            r.map(|v| v.usecs())
+        }
+        TyK::Ora => {
+            let t = OracleDate::try_from_usecs(n * DAY_US + tod)?;
+            let r = if round { lib_round_ora(u, t) } else { lib_trunc_ora(u, t) };
+            r.map(|v| v.usecs())
+        }
+    }
+}
+
+pub fn in_type_range(ty: TyK, us: i128) -> bool {
+    let lo = MIN_DAY as i128 * DAY_US as i128;
+    let hi = match ty {
+        TyK::Date => MAX_DAY as i128 * DAY_US as i128,
+        TyK::Ts => (MAX_DAY as i128 + 1) * DAY_US as i128 - 1,
+        TyK::Ora => (MAX_DAY as i128 + 1) * DAY_US as i128 - 1_000_000,
+    };
+    us >= lo && us <= hi
+}
